@@ -31,6 +31,9 @@ type GobOnly struct {
 	L []string
 }
 
+// I32x3 is a 12-byte pointer-free struct.
+type I32x3 struct{ A, B, C int32 }
+
 type colType struct {
 	Name string
 	Typ  reflect.Type
@@ -145,6 +148,24 @@ func init() {
 			}
 			return p
 		}})
+	// pointer-free element types whose size is not a power of two (3, 12 and 10 bytes): memory
+	// operations on a view of such a column must not round up to words
+	regCol(&colType{Name: "tri8", Typ: reflect.TypeOf([3]uint8{}),
+		Gen: func(r *vf.Rand) any {
+			return [3]uint8{uint8(r.Uint64()) | 1, uint8(r.Uint64()) | 1, uint8(r.Uint64()) | 1}
+		}})
+	regCol(&colType{Name: "i32x3", Typ: reflect.TypeOf(I32x3{}),
+		Gen: func(r *vf.Rand) any {
+			return I32x3{int32(r.Uint64()) | 1, int32(r.Uint64()) | 1, int32(r.Uint64()) | 1}
+		}})
+	regCol(&colType{Name: "i16x5", Typ: reflect.TypeOf([5]int16{}),
+		Gen: func(r *vf.Rand) any {
+			var a [5]int16
+			for i := range a {
+				a[i] = int16(r.Uint64()) | 1
+			}
+			return a
+		}})
 	regCol(&colType{Name: "ints", Typ: reflect.TypeOf([]int(nil)),
 		Gen: func(r *vf.Rand) any {
 			if r.Chance(0.2) {
@@ -229,6 +250,8 @@ var frameSchemas = []schema{
 	{[]string{"bytes", "string"}, 2},
 	{[]string{"uint64", "gobonly"}, 1},
 	{[]string{"bool", "uint16", "uint32", "int8"}, 4},
+	{[]string{"int", "tri8", "i32x3"}, 1},
+	{[]string{"uint8", "i16x5"}, 1},
 }
 
 type row []any
